@@ -18,3 +18,13 @@ package pool
 //@   ensures result_1 == nil ==> forall i int :: 0 <= i && i < len(ret(PackBuffer, 0, 0)) ==> (*result_0)[2 + i] == aftercall(PackBuffer, 0, ret(PackBuffer, 0, 0)[i])
 //@   ensures result_1 == nil ==> calls(GetBuf) == 2 && calls(ReleaseBuf) == 1 && arg(ReleaseBuf, 0, 0) == ret(GetBuf, 0) && result_0 == ret(GetBuf, 1)
 //@   ensures result_1 != nil ==> calls(GetBuf) == 1 && calls(ReleaseBuf) == 1 && arg(ReleaseBuf, 0, 0) == ret(GetBuf, 0)
+
+// Pooled timers: GetTimer returns an armed timer with a non-nil channel (assumed here; the pool
+// code itself is not under contract).
+//@ func GetTimer
+//@   nobody
+//@   log GetTimer
+//@   ensures result != nil && result.C != nil
+//@ func ReleaseTimer
+//@   nobody
+//@   log ReleaseTimer
